@@ -217,7 +217,7 @@ CLAIMS.update({
                 'three, depfile argument under the gcc flavor in all three. '
                 'It decides agreement of the code shape, not equality of the '
                 'evaluated command lines.'
-                ' Added: CompDB keeps every entry (list, unconditional append, dumped whole); ENV-EXPORT in all three command emitters; dependency-root comparison uses guard-clean roots; PASS-THROUGH: the make multi-target helper and the ninja command_build helper forward deps/order-only/variables they receive on every path (must-flow).',
+                ' Added: CompDB keeps every entry (list, unconditional append, dumped whole); ENV-EXPORT in all three command emitters; dependency-root comparison uses guard-clean roots; PASS-THROUGH: the make multi-target helper and the ninja command_build helper forward deps/order-only/variables they receive on every path (must-flow); DEPFILE-WIRING (shared with C07): Make includes the depfile of every object, Ninja names it on the rule.',
         'note': _TB + 'Not decided: equality of evaluated command lines, '
                 'working directories and environments.',
         'technique': 'cross-checking sibling implementations registered in '
